@@ -55,7 +55,7 @@ def run(replay=None):
     thorough = tier() == 'thorough'
     rnd = rng('c14')
     rec = Recorder(rep, rnd, 16 if thorough else 8)
-    texts = family_texts(FAMS, rep, rnd, cap=None if thorough else 1000)
+    texts = family_texts(list(FAMS) + [('rand', 5000, 5) if thorough else ('rand', 800, 4)], rep, rnd, cap=None if thorough else 1000)
     texts += [('vacuous', 'True'), ('vacuous', 'False')]
     from hpl.types import DataType
     for fam, text, entry, obj in parse_inputs(texts, ('expression', 'condition')):
